@@ -5,7 +5,8 @@ from .. import trainsim
 ID = "C07"
 LEVEL = "exploration"
 PROBES = ("validations", "val_calls", "adaptive_checked", "preludes")
-RULE = ("case = training configuration (1-4 conditions of kinds PINN/Mean/Data/AdaptiveWeights/ParameterCondition sharing or not "
+RULE = ("[worlds may also hold 1-3 physics-informed DeepONet conditions sharing ONE DeepONet: fixed or per-iteration redrawn function parameters, track_gradients on/off, a validation condition on a training function set] "
+        "case = training configuration (1-4 conditions of kinds PINN/Mean/Data/AdaptiveWeights/ParameterCondition sharing or not "
         "sharing 1-2 FCN models incl. adaptive activations, optional inverse-problem Parameter, weights, optimizer in "
         "{SGD(+momentum,nesterov), Adam(+weight decay), AdamW, RMSprop, Adagrad}, scheduler in {none, StepLR, ExponentialLR, "
         "MultiStepLR} x scheduler_frequency, N in [1,12]) x *schedule* chosen by the simulator for Lightning "
@@ -60,7 +61,7 @@ def shrink(case):
     if len(spec["conds"]) > 1:
         for i in range(len(spec["conds"])):
             cs = spec["conds"][:i] + spec["conds"][i + 1:]
-            if any("sampler" in c or c["kind"] == "data" for c in cs):
+            if any("sampler" in c or c["kind"] in ("data", "pidon") for c in cs):
                 yield w(conds=cs)
     if spec["opt"].get("sched"):
         o = dict(spec["opt"], sched=None)
